@@ -41,7 +41,8 @@ THEOREMS = ["consts_documented", "chipinfo_roundtrip", "p2p_roundtrip", "p2p_tab
             "iobuf_bytes_exact", "sver_both_encodings", "status_fields_partial", "router_counters",
             "status_block", "processor_status_exact", "p2p_keys_nodup", "get_system_info_exact",
             "probe_to_machine_exact", "contains_exact", "links_cores_enumerate", "target_lengths_exact",
-            "probe_views_exact"]
+            "probe_views_exact", "sysinfo_oracle_exact", "reservations_oracle_exact", "dead_oracle_exact",
+            "machine_oracle_exact"]
 
 RULE = ("cases = machine states: (system) P2P dimensions 1..12 x 1..12 and sparse 255-wide/high tables, listed / "
         "unlisted / unresponsive (silent or error-code) / ghost chips, per-chip core counts, state patterns shared by "
